@@ -10,7 +10,9 @@ the random mixtures and on extra inputs with planted tie groups (gen_tie_case).
 
 The last clause of the property ("so the PEP column of every result file is aligned with its row") is checked on
 the files written by assign_confidence (check pep_column_of_result_files), for a higher-is-better score
-(descs=[True]) and a lower-is-better score (descs=[False]).
+(descs=[True]) and a lower-is-better score (descs=[False]).  The same clause for the other result format, the SQLite
+database written with assign_confidence(..., sqlite_path=...), is check pep_column_of_sqlite_result_tables
+(harness/_c06_sqlite.py): the PEP, q-value and score stored under a row id in every level table must be that row's own.
 """
 import os
 
@@ -27,6 +29,7 @@ import pandas as pd                           # noqa: E402
 
 from harness.common import Check, args, emit  # noqa: E402
 from harness.datasets import make_ds, scratch, small_df   # noqa: E402
+from harness import _c06_sqlite as sq3        # noqa: E402
 
 warnings.filterwarnings("ignore")
 logging.disable(logging.CRITICAL)
@@ -41,6 +44,7 @@ FILE_SHAPES = ("one-psm-per-spectrum", "two-psms-per-spectrum", "one-psm-per-spe
 # triqler's qvality needs up to 30 s per call for 300..500 distinct scores: not run on the large shape without ties
 FILE_SKIP = {("two-psms-per-spectrum", "qvality")}
 FILE_LEVELS = ("psms", "peptides")
+SQL_CHECK = "pep_column_of_sqlite_result_tables"
 MIN_ROWS = 50                                  # a level is judged if both its files have >= 50 rows (property domain)
 
 
@@ -374,7 +378,22 @@ def _work_files(job):
     return ("files", job) + judge_files(seed, k, shape, desc, alg)
 
 
+def sqlite_jobs(tier, seed):
+    """kde_nnls: table k asks for the rollup levels LEVEL_SETS[k mod 4], one / two PSMs per spectrum (k mod 8 < 4 /
+    >= 4), ties for (k div 2) odd; qvality: small one-PSM tables with the peptide level. descs=[False] for k mod 3 == 1;
+    the database also receives the decoys for (k + k div 4) even."""
+    n_kde, n_qv = (8, 6) if tier == "quick" else (64, 48)
+    return [("sqlite", (seed, k, k % 3 != 1, alg, (k + k // 4) % 2 == 0))
+            for alg, n in (("kde_nnls", n_kde), ("qvality", n_qv)) for k in range(n)]
+
+
+def _work_sqlite(job):
+    return ("sqlite", job) + sq3.judge_sqlite(*job, qvality_reference=qvality_reference)
+
+
 def _dispatch(job):
+    if job[0] == "sqlite":
+        return _work_sqlite(job[1])
     return _work_files(job[1]) if job[0] == "files" else _work(job[1])
 
 
@@ -453,8 +472,47 @@ def run(tier, seed):
                        "errors of the estimator (those are the pep_* checks); with descs=[False] the rows chosen by "
                        "deduplication and the q-values follow the high-score-first ranking (property C07) and are not "
                        "judged here" % FILE_CHECK)
+    sql_jobs = sqlite_jobs(tier, seed)
+    n_sql = {alg: sum(j[1][3] == alg for j in sql_jobs) for alg in FILE_ALGS}
+    sck = Check(
+        SQL_CHECK, "mokapot.confidence.assign_confidence(..., sqlite_path=db) -> mokapot.confidence_writer."
+        "ConfidenceSqliteWriter -> tables CANDIDATE / PRECURSOR_VALIDATION / MODIFIED_PEPTIDE_VALIDATION / "
+        "PEPTIDE_VALIDATION / PEPTIDE_GROUP_VALIDATION",
+        "random: %d tables (seed %d, table k uses numpy seed [seed, k, 660]; integer ids, decoy ids apart from target "
+        "ids), each run twice through assign_confidence (deduplication on): once to the text files (decoys=True) and "
+        "once to a SQLite database prepared by the harness (decoys=True for (k + k div 4) even, else targets only); "
+        "descs=[False] on -f0 for k mod 3 == 1, else descs=[True] on f0. %d tables with peps_algorithm=kde_nnls: "
+        "260..360 spectra with one PSM (k mod 8 < 4) or a competing target and decoy PSM each, f0 rounded to 0.1 for "
+        "(k div 2) odd, rollup levels by k mod 4: peptides / precursors+peptides / modifiedpeptides+peptides+"
+        "peptidegroups / all four. %d tables with qvality: 130..180 spectra with one PSM each, level peptides. A level "
+        "is judged when both its text files have >= %d rows"
+        % (len(sql_jobs), seed, n_sql["kde_nnls"], n_sql["qvality"], MIN_ROWS),
+        "per judged level table (the PSM level is the rows of CANDIDATE that received a value): every stored PEP "
+        "finite and in [0,1], never decreasing as the stored score worsens, equal for equal stored scores; the ids "
+        "in the table are the ids of the targets (+ decoys) text file of the level, and the PEP, the q-value (FDR) and "
+        "the score stored under an id equal, within 1e-9, the values the text files list for that id; for qvality "
+        "with the decoys in the database additionally: the stored PEP is a value triqler's qvality, called directly, "
+        "lists at a rank of the row's score among the rows of the table (row labels known from the ids). Which rows "
+        "belong to a level and the values of the q-values themselves are NOT checked (C07). non-trivial = a judged "
+        "rollup-level table (not CANDIDATE) whose PEPs take more than one value and differ from its q-values")
+    assumptions.append("%s: the row's own PEP / q-value / score is taken from the text result files of a second run of "
+                       "the same data set (written by the tabular writer, not by the SQLite writer; their alignment "
+                       "with the estimator is check %s); the database schema is the one of mokapot's own unit test "
+                       "(tests/unit_tests/test_writer_sqlite.py), created and pre-filled (CANDIDATE ids) by the "
+                       "harness; only qvality has a reference that is independent of mokapot (triqler by rank)"
+                       % (SQL_CHECK, FILE_CHECK))
     with mp.get_context("fork").Pool(12) as pool:
-        allres = pool.map(_dispatch, file_jobs[:n_slow] + jobs + file_jobs[n_slow:], chunksize=1)
+        allres = pool.map(_dispatch, file_jobs[:n_slow] + sql_jobs + jobs + file_jobs[n_slow:], chunksize=1)
+    sseen = set()
+    for _, job, found, nontrivial, meta in [r for r in allres if r[0] == "sqlite"]:
+        _, k, desc, alg, sql_decoys = job
+        sck.case((seed, k, desc, alg, sql_decoys), nontrivial=nontrivial)
+        for cid, what in found:
+            if cid not in sseen:
+                sseen.add(cid)
+                sck.violation(cid, what, {"seed": seed, "k": k, "desc": desc, "peps_algorithm": alg,
+                                          "sqlite_decoys": sql_decoys, **meta})
+    allres = [r for r in allres if r[0] != "sqlite"]
     results = [r for r in allres if r[0] != "files"]
     fseen = set()
     for _, job, found, nontrivial, meta in [r for r in allres if r[0] == "files"]:
@@ -482,7 +540,7 @@ def run(tier, seed):
         if cid and (est, cid) not in seen:
             seen.add((est, cid))
             ck.violation(cid, what, {"seed": seed, "k": k, "hi": TIE_HI, "estimator": est, **meta})
-    return [_freeze(c) for c in list(checks.values()) + [fck]], assumptions
+    return [_freeze(c) for c in list(checks.values()) + [fck, sck]], assumptions
 
 
 def REPLAY(check_name, violation):
@@ -491,6 +549,12 @@ def REPLAY(check_name, violation):
         inp = json.loads(inp)
     if check_name == FILE_CHECK:
         found, _, _ = judge_files(inp["seed"], inp["k"], inp["shape"], inp["desc"], inp["peps_algorithm"])
+        same = [f for f in found if f[0] == violation.get("case")] or found
+        return {"violated": bool(found), "case": same[0][0] if same else None,
+                "detail": same[0][1] if same else None, "all_cases": [f[0] for f in found]}
+    if check_name == SQL_CHECK:
+        found, _, _ = sq3.judge_sqlite(inp["seed"], inp["k"], inp["desc"], inp["peps_algorithm"], inp["sqlite_decoys"],
+                                        qvality_reference=qvality_reference)
         same = [f for f in found if f[0] == violation.get("case")] or found
         return {"violated": bool(found), "case": same[0][0] if same else None,
                 "detail": same[0][1] if same else None, "all_cases": [f[0] for f in found]}
